@@ -1408,9 +1408,11 @@ class Unit:
             elif kind in ('body', 'standin'):
                 rel, path = e[1], e[2]
                 src, it = self.repo.item(rel, path.split('#', 1)[0])
-                # impl grouping (a slice, R34, is emitted as a free function)
-                if '::' in path and '#' not in path:
-                    hdr_path = path.rsplit('::', 1)[0]
+                # impl grouping (a slice, R34, is emitted as a free function unless its signature takes `self`)
+                sc_ = self.contracts.get((rel, path))
+                slice_self = '#' in path and sc_ is not None and re.search(r'\(\s*&?\s*(mut\s+)?self\b', sc_.slice.get('sig', ''))
+                if '::' in path and ('#' not in path or slice_self):
+                    hdr_path = path.split('#', 1)[0].rsplit('::', 1)[0]
                     _, impl_it = self.repo.item(rel, hdr_path)
                     hdr = impl_it.impl_header.strip()
                     item_ty = None
